@@ -122,5 +122,8 @@ class RawLinkLayer(LinkLayer):
                         self.receive_callback(m[14:])
                 except NotImplementedError as e:
                     print("Error decoding packet: " + str(e))
+                except Exception as e:  # pylint: disable=broad-except
+                    # no received frame may terminate the receive loop
+                    print("Error processing packet: " + str(e))
             except OSError:
                 break
